@@ -57,7 +57,8 @@ func NewJsonPlusReader(r io.Reader) io.Reader {
 	endMatches := [][]byte{[]byte("'"), []byte("\""), []byte("\n"), []byte("*/")}
 	isComments := []bool{false, false, true, true}
 	requiredMatches := []bool{true, true, false, true}
-	return NewCommentReader(r, startMatches, endMatches, isComments, requiredMatches)
+	// in a json string, a backslash escapes the next char, for example "\"" is one string.
+	return newCommentReader(r, startMatches, endMatches, isComments, requiredMatches, '\\')
 }
 
 // error when comment not match.
@@ -65,6 +66,11 @@ var commentNotMatch = errors.New("comment not match")
 
 // the reader to ignore specified comments or tags.
 func NewCommentReader(r io.Reader, startMatches, endMatches [][]byte, isComments, requiredMatches []bool) io.Reader {
+	return newCommentReader(r, startMatches, endMatches, isComments, requiredMatches, 0)
+}
+
+// @param escape the char which escapes the next char in tags which is not comment, 0 to disable it.
+func newCommentReader(r io.Reader, startMatches, endMatches [][]byte, isComments, requiredMatches []bool, escape byte) io.Reader {
 	v := &commentReader{
 		s: bufio.NewScanner(r),
 		b: &bytes.Buffer{},
@@ -86,7 +92,12 @@ func NewCommentReader(r io.Reader, startMatches, endMatches [][]byte, isComments
 
 		var extra int
 		left := data[pos+len(startMatches[index]):]
-		if extra = bytes.Index(left, endMatches[index]); extra == -1 {
+		if isComments[index] {
+			extra = bytes.Index(left, endMatches[index])
+		} else {
+			extra = indexUnescaped(left, endMatches[index], escape)
+		}
+		if extra == -1 {
 			if atEOF {
 				if requiredMatches[index] {
 					return 0, nil, commentNotMatch
@@ -140,6 +151,25 @@ func (v *commentReader) Read(p []byte) (n int, err error) {
 	}
 
 	return
+}
+
+// get the first match of flag in data, ignore the char escaped by escape.
+// @remark when escape is 0, same to bytes.Index.
+func indexUnescaped(data, flag []byte, escape byte) int {
+	if escape == 0 {
+		return bytes.Index(data, flag)
+	}
+
+	for i := 0; i < len(data); i++ {
+		if data[i] == escape {
+			i++
+			continue
+		}
+		if bytes.HasPrefix(data[i:], flag) {
+			return i
+		}
+	}
+	return -1
 }
 
 // get the first match in flags.
